@@ -183,18 +183,25 @@ class Env:
         shutil.rmtree(self.dir, ignore_errors=True)
 
 
+def _txt(x):
+    """hex of a str attribute; anything else (an ill-typed descriptor that was accepted) is shown as it is"""
+    if isinstance(x, str):
+        return x.encode('utf-8', 'surrogatepass').hex()
+    return None if x is None else {'not_a_str': repr(x)}
+
+
 def blob_dicts(sd):
     out = []
     for b in sd.blobs:
-        out.append({'num': b.blob_num, 'len': b.length, 'iv': b.iv.encode().hex(),
-                    'hash': None if b.blob_hash is None else b.blob_hash.encode().hex()})
+        out.append({'num': b.blob_num if type(b.blob_num) is int else {'not_an_int': repr(b.blob_num)},
+                    'len': b.length if type(b.length) is int else {'not_an_int': repr(b.length)},
+                    'iv': _txt(b.iv), 'hash': _txt(b.blob_hash)})
     return out
 
 
 def desc_obs(sd):
-    return {'name': sd.stream_name.encode().hex(), 'key': sd.key.encode().hex(),
-            'sugg': sd.suggested_file_name.encode().hex(), 'shash': sd.stream_hash.encode().hex(),
-            'blobs': blob_dicts(sd)}
+    return {'name': _txt(sd.stream_name), 'key': _txt(sd.key), 'sugg': _txt(sd.suggested_file_name),
+            'shash': _txt(sd.stream_hash), 'blobs': blob_dicts(sd)}
 
 
 # ------------------------------------------------------------------------------------------------
